@@ -13,7 +13,9 @@ import e2_sites
 SAFE_LEN_TYPES = ("u8", "u16", "u32", "u64", "usize",
                   "flatty_portable::int::Int<false, 2, false>", "flatty_portable::int::Int<false, 4, false>",
                   "flatty_portable::int::Int<false, 8, false>", "flatty_portable::int::Int<true, 2, false>",
-                  "flatty_portable::int::Int<true, 4, false>", "flatty_portable::int::Int<true, 8, false>")
+                  "flatty_portable::int::Int<true, 4, false>", "flatty_portable::int::Int<true, 8, false>",
+                  # the corpus' own 3-byte length type (corpus/gen.py U24_PRELUDE): to_u64 is Some(24-bit value), so to_usize never fails
+                  "flatty_corpus::U24")
 
 
 class Ctx:
@@ -193,6 +195,8 @@ def generic(ctx, bj, body, site):
     k, what, ops = site["kind"], site["what"], site["ops"]
     if k == "assert" and what.startswith("Overflow(Add)") or what.startswith("Overflow(Mul)"):
         return lemma("sums/products of in-slice offsets, sizes and lengths cannot overflow usize (every operand <= isize::MAX)")(ctx, bj, body, site)
+    if k == "assert" and what.startswith("BoundsCheck") and len(ops) == 2 and re.fullmatch(r"[0-9]+", ops[0] or "") and re.fullmatch(r"[0-9]+", ops[1] or ""):
+        return int(ops[1]) < int(ops[0]), "constant index %s into an array of %s entries" % (ops[1], ops[0])
     if k == "assert" and what == "OverflowNeg" and ops and re.fullmatch(r"\(([0-9]+) as isize\)", ops[0] or ""):
         return True, "negation of a small non-negative constant cannot overflow"
     if k == "assert" and what in ("DivisionByZero", "RemainderByZero") and ops and re.fullmatch(r"[0-9]+", ops[-1] or ""):
